@@ -11,17 +11,17 @@ CHECKS = {
   note="Trusted: sync.Mutex semantics, go/ssa lowering, out-of-repo callees do not touch the mutex. Not decided: use of the *wire.MsgFilterLoad after the accessor handed it out / after the caller handed it in.",
   ref="§3 C20, §2.5, §2.6"),
 }
- "C15": dict(
+CHECKS["C15"] = dict(
   technique="origin / write-effect (points-to) analysis over go/ssa: field classification, aliasing of stored slices, frame conditions; dominance for zero-then-drop",
   text="Frame argument over every history of ExtendedKey operations: every []byte field is either wiped in place by Zero or never written element-wise anywhere; no store puts into a wiped field of one key a slice aliasing a wiped buffer of another key or a global (all construction sites, through the raw constructor); only Zero writes key-buffer bytes and methods write only receiver fields; Zero wipes each buffer completely (full-range loop / clear) on every path before dropping it and clears the flags String/ECPrivKey test. Decides the structural clauses, not serialisation equality.",
   note="Trusted: out-of-repo callees return fresh slices; go/ssa. Assumed: external callers of NewExtendedKey do not share the buffers they pass in.",
-  ref="§3 C15, §2.5"),
- "C07": dict(
+  ref="§3 C15, §2.5")
+CHECKS["C07"] = dict(
   technique="write-effect analysis (argument purity), constant-table evaluation, must-pass-through guard facts with a linear-arithmetic entailment, symbolic byte-sequence terms for the checksum comparison",
   text="No path of the seven Base58/Base58Check/bech32 entry points (in-repo callees included) writes memory reachable from an argument; alphabet/decode-table agreement symbol by symbol against the Bitcoin and BIP173 constants; every accepting return of CheckDecode is behind a full 4-byte SHA256d comparison over input[:len-4] with len>=5, bech32.Decode behind remainder==1; BIP173 length, separator, character-range, single-case guards and ConvertBits padding rejection lie on every accepting path. Structural clauses only; bijectivity of the radix arithmetic is not decided.",
   note="Trusted: out-of-repo callees read-only on slice arguments except the listed writer table; spec constants. Not decided: value-level inverse property.",
-  ref="§3 C07"),
-}
+  ref="§3 C07")
+
 NA_REASON = {
  "C17": "Every clause with content is a statement about IEEE-754 rounding of f*1e8, a/10^k and shortest-decimal printing over 2.1e15 integers; no fact about the shape of amount.go implies or refutes it, and the two shape-level clauses (NaN/Inf rejected, unit labels) are already pinned by the suite (DESIGN.md §4).",
 }
